@@ -268,9 +268,9 @@ func genConc(r *rand.Rand, tcp bool) *Case {
 
 func run(m *mon.M) {
 	r := m.Rand("cases")
-	nseq := m.N(2500, 31000)
+	nseq := m.N(2500, 40000)
 	nseqTCP := m.N(60, 1500)
-	nconc := m.N(40, 300)
+	nconc := m.N(40, 600)
 	nconcTCP := m.N(3, 30)
 	// concurrent runs first and interleaved with sequential ones, so that a worker killed by a
 	// runtime fatal error leaves the concurrent case on disk
